@@ -363,6 +363,13 @@ namespace T
    template< typename A > using w_tc_type_rn = p::try_catch_type_raise_nested< HoleX, A >;
    template< typename A, typename B > using w_tc_rf2 = p::try_catch_return_false< A, B >;
    // action control
+   // star< sor< one< c >, R > >: an anonymous rule whose printed name contains a character that is special in type printouts
+   template< typename A > using w_star_sorx_semi = p::star< p::sor< p::one< ';' >, A > >;
+   template< typename A > using w_star_sorx_rbr = p::star< p::sor< p::one< ']' >, A > >;
+   template< typename A > using w_star_sorx_eq = p::star< p::sor< p::one< '=' >, A > >;
+   template< typename A > using w_star_sorx_comma = p::star< p::sor< p::one< ',' >, A > >;
+   template< typename A > using w_star_sorx_gt = p::star< p::sor< p::one< '>' >, A > >;
+   template< typename A > using w_star_sorx_quote = p::star< p::sor< p::one< '\'' >, A > >;
    template< typename A > using w_enable = p::enable< A >;
    template< typename A > using w_disable = p::disable< A >;
    struct LogState;
@@ -501,6 +508,7 @@ namespace T
    A0( INT_S, G_CONTRIB, ( p::signed_rule ) ) \
    A0( INT_MAX8, G_CONTRIB, ( p::maximum_rule< std::uint8_t > ) ) \
    A0( INT_MAX300, G_CONTRIB, ( p::maximum_rule< std::uint16_t, 300 > ) ) \
+   A0( INT_MAX7, G_CONTRIB, ( p::maximum_rule< std::uint8_t, 7 > ) ) \
    A0( RAW, ( G_CONTRIB | G_RAW ), ( raw_t ) ) \
    A0( PRED_AND, ( G_CONTRIB | G_PRED ), ( p::predicates_and< p::range< 'a', 'c' >, p::not_one< 'b' > > ) ) \
    A0( PRED_NOT, ( G_CONTRIB | G_PRED ), ( p::predicate_not< p::one< 'a' > > ) ) \
@@ -512,6 +520,12 @@ namespace T
    A0( OPT_ONE_A, G_FILL, ( p::opt< p::one< 'a' > > ) ) \
    A0( AT_ONE_A, G_FILL, ( p::at< p::one< 'a' > > ) ) \
    A0( NOT_AT_ONE_A, G_FILL, ( p::not_at< p::one< 'a' > > ) ) \
+   A0( STAR_NA_SEMI, G_FILL, ( p::star< p::sor< p::one< ';' >, p::one< 'a' > > > ) ) \
+   A0( STAR_NA_RBR, G_FILL, ( p::star< p::sor< p::one< ']' >, p::one< 'a' > > > ) ) \
+   A0( STAR_NA_EQ, G_FILL, ( p::star< p::sor< p::one< '=' >, p::one< 'a' > > > ) ) \
+   A0( STAR_NA_COMMA, G_FILL, ( p::star< p::sor< p::one< ',' >, p::one< 'a' > > > ) ) \
+   A0( STAR_NA_GT, G_FILL, ( p::star< p::sor< p::one< '>' >, p::one< 'a' > > > ) ) \
+   A0( STAR_NA_QUOTE, G_FILL, ( p::star< p::sor< p::one< '\'' >, p::one< 'a' > > > ) ) \
    U1( ACTION_ALT, G_META, w_action_alt ) \
    U1( CONTROL_ALT, G_META, w_control_alt ) \
    U1( RAW1, G_META, w_raw1 ) \
@@ -627,6 +641,12 @@ namespace T
    A0( APPLY, G_ACT, ( p::apply< rule_action > ) ) \
    A0( APPLY0, G_ACT, ( p::apply0< rule_action0 > ) ) \
    U1( STATE, G_STATE, w_state ) \
+   U1( STAR_SORX_SEMI, G_FILL, w_star_sorx_semi ) \
+   U1( STAR_SORX_RBR, G_FILL, w_star_sorx_rbr ) \
+   U1( STAR_SORX_EQ, G_FILL, w_star_sorx_eq ) \
+   U1( STAR_SORX_COMMA, G_FILL, w_star_sorx_comma ) \
+   U1( STAR_SORX_GT, G_FILL, w_star_sorx_gt ) \
+   U1( STAR_SORX_QUOTE, G_FILL, w_star_sorx_quote ) \
    U1( STATE_D, G_STATE, w_state_d )
 
    enum Op : uint8_t
